@@ -98,10 +98,11 @@ PROPS = {
         "spec_ops": {"spec.c07.stream": "fr.stream"},
     },
     "C08": {
-        "thm": ["SameVerif.Thm.C08", "SameVerif.Thm.C08rx"],
+        "thm": ["SameVerif.Thm.C08", "SameVerif.Thm.C08rx", "SameVerif.Thm.ChainLatency"],
+        "thm_thorough": ["SameVerif.Thm.ChainLatencyDemo"],
         "suites": ["asmseq", "asmscen", "sigc01", "sigseq", "sighold"],
         "spec_filter": r"^spec\.(asm c08|sig c08|sig c08seq|sig c08hold) ",
-        "technique": "Lean 4 invariants over all assembler operation histories (no EndOfMessage is ever left pending; accept never sets a deadline beyond now+hold; a due result is released by the next poll) + receiver-level run theorems (Thm/C08rx: the pending result is reported at the FIRST NoCarrier tick at or after acceptance + HOLD whatever Searching/Reading ticks intervene, nothing before) + differential correspondence of the Assembler incl. private state + per-tick-polled scenario sweeps judged by a delay oracle + signal-level suites sigseq/sighold judged by a trace-only hold oracle",
+        "technique": "Lean 4 invariants over all assembler operation histories (no EndOfMessage is ever left pending; accept never sets a deadline beyond now+hold; a due result is released by the next poll) + receiver-level run theorems (Thm/C08rx: the pending result is reported at the FIRST NoCarrier tick at or after acceptance + HOLD whatever Searching/Reading ticks intervene, nothing before) + differential correspondence of the Assembler incl. private state + per-tick-polled scenario sweeps judged by a delay oracle + chain-level LATENCY theorems (Thm/ChainLatency, under Spec.StreamObserved2 on one tick stream from the initial states): every burst is reported at a tick in [e+31, e+rel+31] (e = first tick after its last bit, rel = ticks until the close threshold fails); the StartOfMessage comes either at a NoCarrier tick >= b2+HOLD before the third burst is assembled, or at EXACTLY b3+HOLD; the EndOfMessage at EXACTLY the tick of the trailer burst that establishes it (first if the header bursts have expired, second otherwise); in samples: <= tau*(rel+31+HOLD) after the last header bit, which is below 1.5 s at the nominal symbol rate iff rel <= 68 (latency_nominal); bounds attained on the demo stream (thorough tier) + signal-level suites sigseq/sighold judged by a trace-only hold oracle",
         "level_text": "Proved in Lean over every state and every operation of the assembler model: an EndOfMessage is output by the very call that assembles its establishing burst and is never left pending; every pending result is due no later than its acceptance + MAX_INTERBURST_SYMBOLS (= documented 1.311 s, from the generated constants) and any poll at or after the deadline outputs it and empties the slot, so nothing is held for ever. "
                       "The model is tied to the real Assembler through the hook (outputs and private state after every call) and on thousands of scripted histories with a poll at every idle tick; the oracle checks EOM-at-burst-tick and SOM <= last carrying burst + hold on a quiet channel.",
         "level_note": "Ticks are symbol-synchronizer outputs; the conversion to seconds/samples and the burst-termination latency are sampled at signal level (sigc01, sigseq, sighold: carrier activity inside the hold, destroyed-prefix bursts), not proved. One open known finding (F8) is reported as KNOWN-FINDING.",
